@@ -148,7 +148,7 @@ def check(rep, tier, seed):
     cases = []
     for i in range(n_hist):
         for m in masks(tier, r):
-            eng = ENGINES[(i + len(m)) % 3]
+            eng = (ENGINES + ["metrics-memkv", "metrics-tikv"])[(i + len(m)) % 5]   # metrics-: failures injected BELOW the storage-metrics wrapper
             sk = [PREFIX + b"/a"] if i % 4 == 3 else None
             cases.append(gen_case(seed, i, eng, m, sk))
     races = [race_case(seed, i, ["tikv", "tikv", "memkv", "badger"][i % 4]) for i in range(24 if tier == "quick" else 600)]
